@@ -194,7 +194,9 @@ def parseCfg (toks : List String) : Role × Config × Option Bytes :=
       maxw := ((kv toks "maxw").bind optNat).getD usizeMax
       maxMsg := (kv toks "maxmsg").bind optNat
       maxFrame := (kv toks "maxframe").bind optNat
-      acceptUnmasked := kv toks "unmasked" == some "1" }
+      -- `default`: the field is left as `WebSocketConfig::default()` sets it (value generated from the source)
+      acceptUnmasked := if kv toks "unmasked" == some "default" then Gen.defaultAcceptUnmasked
+                        else kv toks "unmasked" == some "1" }
   let pre := match kv toks "pre" with
     | none => none
     | some "none" => none
@@ -436,7 +438,10 @@ partial def runCase (lines : Array String) : Array String := Id.run do
       out := out.push line
       let (role, cfg, pre) := parseCfg toks
       st := { st with role := role, cfg := cfg, pre := pre }
-      ic := { ic with role := role, cfg := cfg, pre := pre }
+      -- the monitors judge against what the properties assume of an untouched configuration:
+      -- unmasked client frames are NOT accepted unless explicitly allowed
+      let cfgSpec := if kv toks "unmasked" == some "default" then { cfg with acceptUnmasked := false } else cfg
+      ic := { ic with role := role, cfg := cfgSpec, pre := pre }
       i := i + 1
     | "op" :: rest =>
       out := out.push line
@@ -792,7 +797,7 @@ partial def runHsCase (lines : Array String) : Array String := Id.run do
   let mut hcfg : List String := []
   let mut cfgToks : Option (List String) := none
   let mut sockOps : Array Mon.ImplOp := #[]
-  let mut allDelivered : Bytes := []
+  let mut deliveredChunks : Array Bytes := #[]   -- appended per read event, flattened once (linear)
   let mut stage : HsStage := .fresh
   let mut trans : Transport := { rd := [], wr := [], fl := [] }
   let mut i := 0
@@ -818,7 +823,7 @@ partial def runHsCase (lines : Array String) : Array String := Id.run do
           iop := { iop with io := evs.filter (· != "-") }
           for e in ev.rd do
             match e with
-            | .data bs => allDelivered := allDelivered ++ bs
+            | .data bs => deliveredChunks := deliveredChunks.push bs
             | _ => pure ()
           j := j + 1
         | "parsed" :: _ => echo := echo.push lines[j]!; j := j + 1
@@ -947,6 +952,7 @@ partial def runHsCase (lines : Array String) : Array String := Id.run do
             | none => {}
           -- what arrived during the handshake after the head was handed over as already read;
           -- what the socket's own reads fetched is its inbound stream
+          let allDelivered : Bytes := deliveredChunks.toList.flatten
           let after := allDelivered.drop headSize
           let sockGot := Mon.deliveredBytes { ops := sockOps }
           let ic : Mon.ImplCase := { role := .client, cfg := cfg, pre := some (after.take (after.length - sockGot)),
